@@ -260,9 +260,21 @@ def run(prog, rep):
             work.append((short, f.cls.replace('BitSerializer::MsgPack::Detail::', ''), f, rec))
     for short, site, f, rec in work:
         rep.touch(f)
-        loops = [n for n in f.walk() if n['k'] in ('ForStmt', 'WhileStmt')]
+        # the loop sits in the destructor or in a member function of the scope the destructor calls unconditionally
+        bodies, todo = [f], [f]
+        while todo and len(bodies) < 6:
+            g0 = todo.pop()
+            for st in (g0.body or {}).get('c', []):
+                e = strip(st)
+                if e is not None and e['k'] == 'CXXMemberCallExpr':
+                    cal = g0.callee(e)
+                    h = prog.funcs.get(cal['id']) if cal is not None and cal.get('repo') else None
+                    if h is not None and h.body is not None and h.cls == f.cls and h not in bodies:
+                        bodies.append(h)
+                        todo.append(h)
+        dtor = f
         good = None
-        for lp in loops:
+        for f, lp in [(g0, n) for g0 in bodies for n in g0.walk() if n['k'] in ('ForStmt', 'WhileStmt')]:
             cond = child(lp, 'cond') if lp['k'] == 'ForStmt' else lp['c'][0]
             cs = strip(cond) if cond else None
             if cs is None or cs['k'] != 'BinaryOperator' or cs.get('op') not in ('<', '!='):
@@ -278,6 +290,7 @@ def run(prog, rep):
                     and (strip(m['c'][0]) or {}).get('k') == 'MemberExpr' and (strip(m['c'][0]) or {}).get('m') in members]
             good = (len(skips), len(incs), f.loc(lp))
             break
+        f = dtor
         if good is None:
             rep.finding('R3.8', '%s|no skip loop' % short, f.loc(), '%s: destructor has no loop bounded by mSize that skips unread items' % site, func=f.id, count=2)
         elif good[0] != per_item[short]:
